@@ -66,14 +66,54 @@ using Node = Set::TableNode;
 static Set* g_set = nullptr;
 static std::set<const void*>* g_payload_done = nullptr;
 
-static Node* raw_next(Node* nd) { return *(Node* volatile*)&nd->next; }   // plain read, no scheduling point
+// The header of every chained TableNode (table pointers, bucket mask: plain fields the winner of a growth
+// race writes in `new TableNode` and every other thread reads after reaching the node through `next`) is a
+// vrt_payload range, so the HB race monitor checks that the node is published by the release / acquire
+// edges the code really has (growth CAS acq_rel + failure order acquire, `next` loads acquire).  Nodes are
+// recognised at allocation (global operator new, size of a TableNode, inside Set::emplace of this thread;
+// SC passes only: in view mode VRT itself allocates blocks of that size).  The harness's own reads of
+// node headers (resolver, position lookup) are not instrumented.
+#define C03_RAW __attribute__((no_sanitize_thread, noinline))
+static bool g_hook = false;
+static thread_local bool t_in_emplace = false;
+static std::vector<void*>* g_cand = nullptr;       // blocks registered as node headers in this run
+static std::vector<void*>* g_deferred = nullptr;   // ... and released by their owner during the run
+static bool g_hook_busy = false;
+
+void* operator new(size_t n) {
+  void* p = malloc(n ? n : 1);
+  if (!p) abort();
+  if (g_hook && t_in_emplace && n == sizeof(Node) && !g_hook_busy) {
+    g_hook_busy = true;
+    g_cand->push_back(p);
+    vrt_payload(p, offsetof(Node, next), "node");
+    g_hook_busy = false;
+  }
+  return p;
+}
+static void c03_free(void* p) noexcept {
+  if (p && g_cand && !g_hook_busy) {
+    for (void* c : *g_cand)
+      if (c == p) {   // keep the address unique (and its shadow meaningful) until the end of the run
+        g_hook_busy = true;
+        g_deferred->push_back(p);
+        g_hook_busy = false;
+        return;
+      }
+  }
+  free(p);
+}
+void operator delete(void* p) noexcept { c03_free(p); }
+void operator delete(void* p, size_t) noexcept { c03_free(p); }
+
+C03_RAW static Node* raw_next(Node* nd) { return *(Node* volatile*)&nd->next; }   // plain read, no scheduling point
 
 static void name_table(Fixed* t, int pos) {
   size_t nb = t->bucket_count();
   vrt_namef(t->_controls, nb + 16, "ctl%d", pos);
   vrt_payload(t->_values, nb * sizeof(*t->_values), (std::string("val") + std::to_string(pos)).c_str());
 }
-static bool resolver(const void* addr, char* out, size_t cap) {
+C03_RAW static bool resolver(const void* addr, char* out, size_t cap) {
   if (!g_set) return false;
   uintptr_t a = (uintptr_t)addr;
   int pos = 1;
@@ -84,10 +124,12 @@ static bool resolver(const void* addr, char* out, size_t cap) {
     }
     Fixed& t = nd->table;
     uintptr_t c = (uintptr_t)t._controls;
-    size_t nb = t.bucket_count();
+    size_t nb = t._bucket_mask + 1;
     if (a >= c && a < c + nb + 16) {
-      if (g_payload_done->insert(t._controls).second)
-        vrt_payload(t._values, nb * sizeof(*t._values), (std::string("val") + std::to_string(pos)).c_str());
+      const void* ctl = t._controls;
+      const void* vals = t._values;
+      if (g_payload_done->insert(ctl).second)
+        vrt_payload(vals, nb * sizeof(*t._values), (std::string("val") + std::to_string(pos)).c_str());
       if (a == c) snprintf(out, cap, "ctl%d", pos);
       else snprintf(out, cap, "ctl%d+%lu", pos, (unsigned long)(a - c));
       return true;
@@ -115,7 +157,7 @@ struct Oracle {
   std::map<uint64_t, bool> stored;            // key -> some emplace returned non-end (for the final census)
 };
 
-static int node_id_of_table(const Fixed* t, const Fixed* fixed_head) {
+C03_RAW static int node_id_of_table(const Fixed* t, const Fixed* fixed_head) {
   if (t == fixed_head) return 0;
   if (!g_set) return -1;
   int pos = 1;
@@ -154,7 +196,9 @@ struct Runner {
     return unpack_table_it(res.first, res.second);
   }
   Out emplace_on(Set& s, Item& item, bool use_insert) {
+    t_in_emplace = true;
     auto res = use_insert ? s.insert(std::move(item)) : s.emplace(std::move(item));
+    t_in_emplace = false;
     if (res.first == s.end()) { Out r {}; r.end = true; r.inserted = res.second; return r; }
     return unpack_table_it(res.first._iter, res.second);
   }
@@ -299,6 +343,9 @@ static void run(uint64_t seed, bool is_set) {
   Oracle o;
   o.view = getenv("VRT_MEM") && !strcmp(getenv("VRT_MEM"), "view");
   Runner<C> R {c, head, o, is_set};
+  g_cand = new std::vector<void*>();
+  g_deferred = new std::vector<void*>();
+  g_hook = is_set && !o.view;
   vrt_begin(seed);
   printf("RUN %lu mode=%s n0=%zu threads=%d\n", (unsigned long)seed, is_set ? "set" : "fixed", n0, nthreads);
   for (size_t i = 0; i < nprefix; ++i) R.do_emplace(mk_key(i), i, false);
@@ -322,6 +369,7 @@ static void run(uint64_t seed, bool is_set) {
   for (auto& kv : o.stored) R.do_find(kv.first);
   uint64_t steps = vrt_steps(), switches = vrt_switches(), stale = vrt_stale_reads();
   vrt_end();
+  g_hook = false;
   // ---- quiescent census, outside the controlled section (growth never drops or duplicates a key;
   // chain shape; size)
   std::vector<const Fixed*> tables;
@@ -392,6 +440,15 @@ static void run(uint64_t seed, bool is_set) {
   delete cp;
   delete g_payload_done;
   g_payload_done = nullptr;
+  {
+    std::vector<void*>* cand = g_cand;
+    std::vector<void*>* deferred = g_deferred;
+    g_cand = nullptr;
+    g_deferred = nullptr;
+    for (void* p : *deferred) free(p);
+    delete cand;
+    delete deferred;
+  }
 }
 
 int main(int argc, char** argv) {
